@@ -5,7 +5,8 @@
      OX t c   the tag's cached expansion group g_t = [t] ++ c sits in the tree
               (t._parent = g_t); c = [] or [content group]
      OCyc     the group that is its own first child (g._replace(t, g) with
-              t._parent = g): what the second expand_defs of the current code builds
+              t._parent = g): what the second expand_defs built before fix commit 60986da
+              (fx = false)
    Same operations, same [fx] switch as the heap model.  The cached content is
    kept as pure nodes: under [wf_dict] no operation can change it.
    Models only -- no proofs. *)
